@@ -94,6 +94,8 @@ pub trait Prop: Sync + Send {
     fn run(&self, case: &Self::Case) -> Outcome;
     /// Extra keys for evidence.coverage, computed after the run.
     fn extra_evidence(&self) -> Value { json!({}) }
+    /// Digest used to count distinct cases (default: hash of the JSON form).
+    fn case_digest(&self, case: &Self::Case) -> u64 { digest(&serde_json::to_vec(case).unwrap_or_default()) }
     /// Maximum wall-clock seconds a single case may take before the watchdog trips.
     fn hang_secs(&self) -> u64 { 60 }
 }
@@ -126,7 +128,7 @@ pub fn case_rng(seed: u64, id: &str, index: u64) -> TestRng {
     TestRng::from_seed(RngAlgorithm::ChaCha, &bytes)
 }
 
-fn digest(bytes: &[u8]) -> u64 {
+pub fn digest(bytes: &[u8]) -> u64 {
     let mut h = std::collections::hash_map::DefaultHasher::new();
     bytes.hash(&mut h);
     h.finish()
@@ -191,11 +193,11 @@ impl Stats {
     }
 }
 
-struct Shared {
+struct Shared<C> {
     stop: AtomicBool,
     new_signatures: Mutex<HashSet<String>>,
-    /// per worker: (start ms since t0, or 0 when idle), current case json
-    slots: Vec<(AtomicU64, Mutex<Vec<u8>>)>,
+    /// per worker: (start ms since t0, or 0 when idle), current case
+    slots: Vec<(AtomicU64, Mutex<Option<C>>)>,
     t0: Instant,
 }
 
@@ -211,7 +213,7 @@ fn run_caught<P: Prop>(prop: &P, case: &P::Case) -> Result<Outcome, String> {
 struct Worker<'a, P: Prop> {
     prop: &'a P,
     known_open: &'a HashSet<String>,
-    shared: &'a Shared,
+    shared: &'a Shared<P::Case>,
     slot: usize,
     stats: Stats,
 }
@@ -219,13 +221,10 @@ struct Worker<'a, P: Prop> {
 impl<'a, P: Prop> Worker<'a, P> {
     /// Process one case. Returns the failure signature if it is a NEW one (not known, not yet seen).
     fn process(&mut self, case: &P::Case, origin: &str) -> Option<Failure> {
-        let bytes = serde_json::to_vec(case).unwrap_or_default();
-        let d = digest(&bytes);
         {
             let (start, cur) = &self.shared.slots[self.slot];
             if let Ok(mut g) = cur.lock() {
-                g.clear();
-                g.extend_from_slice(&bytes);
+                *g = Some(case.clone());
             }
             start.store(self.shared.t0.elapsed().as_millis() as u64 + 1, Ordering::SeqCst);
         }
@@ -235,6 +234,7 @@ impl<'a, P: Prop> Worker<'a, P> {
             Ok(o) => o,
             Err(e) => {
                 if self.stats.harness_errors.len() < 5 {
+                    let bytes = serde_json::to_vec(case).unwrap_or_default();
                     self.stats
                         .harness_errors
                         .push(format!("{e}; case={}", String::from_utf8_lossy(&bytes[.. bytes.len().min(600)])));
@@ -246,7 +246,7 @@ impl<'a, P: Prop> Worker<'a, P> {
         self.stats.evaluations += 1;
         if out.nontrivial {
             self.stats.nontrivial += 1;
-            self.stats.digests.insert(d);
+            self.stats.digests.insert(self.prop.case_digest(case));
         }
         if let Some(e) = &out.excluded {
             *self.stats.excluded.entry(e.clone()).or_default() += 1;
@@ -255,7 +255,7 @@ impl<'a, P: Prop> Worker<'a, P> {
             let n = self.stats.hist.entry(l.clone()).or_default();
             *n += 1;
             if *n == 1 && self.stats.samples.len() < 40 {
-                let v: Value = serde_json::from_slice(&bytes).unwrap_or(Value::Null);
+                let v: Value = serde_json::to_value(case).unwrap_or(Value::Null);
                 self.stats
                     .samples
                     .insert(l.clone(), json!({"class": l, "origin": origin, "case": truncate_json(&v, 1500)}));
@@ -395,7 +395,7 @@ pub fn run_prop<P: Prop>(prop: &P, opts: &mut Opts) -> i32 {
         stop: AtomicBool::new(false),
         new_signatures: Mutex::new(HashSet::new()),
         slots: (0 .. nthreads + 1)
-            .map(|_| (AtomicU64::new(0), Mutex::new(Vec::new())))
+            .map(|_| (AtomicU64::new(0), Mutex::new(None)))
             .collect(),
         t0,
     };
@@ -445,6 +445,7 @@ pub fn run_prop<P: Prop>(prop: &P, opts: &mut Opts) -> i32 {
     let hang_secs = prop.hang_secs();
     let done = AtomicBool::new(false);
     let hang: Mutex<Option<(Vec<u8>, u64)>> = Mutex::new(None);
+    let shared: Shared<P::Case> = shared;
 
     std::thread::scope(|s| {
         let mut handles = Vec::new();
@@ -518,7 +519,11 @@ pub fn run_prop<P: Prop>(prop: &P, opts: &mut Opts) -> i32 {
                 for (start, cur) in shared.slots.iter() {
                     let st = start.load(Ordering::SeqCst);
                     if st != 0 && now > st && now - st > hang_secs * 1000 {
-                        let bytes = cur.lock().map(|g| g.clone()).unwrap_or_default();
+                        let bytes = cur
+                            .lock()
+                            .ok()
+                            .and_then(|g| g.as_ref().map(|c| serde_json::to_vec(c).unwrap_or_default()))
+                            .unwrap_or_default();
                         *hang_ref.lock().unwrap() = Some((bytes, now - st));
                         return;
                     }
